@@ -36,7 +36,7 @@ def gen_cases(tier, seed):
                 continue
             cid = "conf-r%d-a%d-sc%d-%s-%s" % (sr, sa, sc, mode, layout)
             cases.append({"id": cid, "sig": ["conf", sr, sa, sc, mode, layout], "kind": "conf", "sr": sr, "sa": sa, "sc": sc, "mode": mode, "layout": layout})
-    for fam in ("signature", "time", "addressing"):
+    for fam in ("signature", "time", "addressing", "schema"):
         shards = 12 if fam == "signature" else 1
         for sh in range(shards):
             cases.append({"id": "same-checks-%s-%d" % (fam, sh), "sig": ["same-checks", fam, sh], "kind": "meta", "family": fam, "deep": tier == "thorough",
@@ -170,6 +170,23 @@ def semantic_mutants(xml, family, deep):
         yield "recipient-foreign", d.set_attr(s, "Recipient", "https://other-sp.example.net/acs").text()
         yield "no-authn-statement", d.remove(d.find(xk.SAML, "AuthnStatement")[0]).text()
         yield "no-subject-confirmation", d.remove(d.find(xk.SAML, "SubjectConfirmation")[0]).text()
+    elif family == "schema":
+        # an assertion that is not an assertion by the library's own schema validation (run on every plain message)
+        a = [c for c in d.root.children if c.tag == (xk.SAML, "Assertion")][0]
+        yield "assertion-without-issue-instant", d.set_attr(a, "IssueInstant", None).text()
+        yield "assertion-issue-instant-not-a-datetime", d.set_attr(a, "IssueInstant", "yesterday").text()
+        yield "assertion-without-id", d.set_attr(a, "ID", None).text()
+        yield "assertion-without-version", d.set_attr(a, "Version", None).text()
+        yield "assertion-without-issuer", d.remove(a.child(xk.SAML, "Issuer")).text()
+        c = d.find(xk.SAML, "Conditions")[0]
+        yield "conditions-not-before-empty", d.set_attr(c, "NotBefore", "").text()
+        yield "conditions-not-on-or-after-not-a-datetime", d.set_attr(c, "NotOnOrAfter", "2999-13-45T00:00:00Z").text()
+        st = d.find(xk.SAML, "AuthnStatement")[0]
+        yield "authn-statement-without-authn-instant", d.set_attr(st, "AuthnInstant", None).text()
+        at = d.find(xk.SAML, "Attribute")[0]
+        yield "attribute-without-name", d.set_attr(at, "Name", None).text()
+        sub = d.find(xk.SAML, "Subject")[0]
+        yield "two-subjects", d.insert_after(sub, d.outer(sub).decode("utf-8")).text()
 
 
 def run_meta(case, ctx, viol, counters, sigs):
